@@ -87,6 +87,68 @@ func c16CommitHook(c *Ctx, r *Rng) {
 				break
 			}
 		}
+		// the model's list of files the hook re-examines (PostCommit.changed), from the trees as Git has them
+		{
+			pathID := map[string]int{}
+			blobID := map[string]int{}
+			tree := func(rev string) string {
+				out, code := w.git("ls-tree", "-r", "-z", rev)
+				if code != 0 {
+					return "-"
+				}
+				var es []string
+				for _, e := range strings.Split(out, "\x00") {
+					tab := strings.SplitN(e, "\t", 2)
+					f := strings.Fields(tab[0])
+					if len(tab) != 2 || len(f) != 3 {
+						continue
+					}
+					if _, ok := pathID[tab[1]]; !ok {
+						pathID[tab[1]] = len(pathID) + 1
+					}
+					if _, ok := blobID[f[2]]; !ok {
+						blobID[f[2]] = len(blobID) + 1
+					}
+					es = append(es, fmt.Sprintf("%d:%d", pathID[tab[1]], blobID[f[2]]))
+				}
+				return joinOrDash(es)
+			}
+			plist, _ := w.git("rev-list", "--parents", "-n", "1", "HEAD")
+			pf := strings.Fields(plist)
+			parents := "none"
+			if len(pf) > 1 {
+				var ps []string
+				for _, pr := range pf[1:] {
+					ps = append(ps, tree(pr))
+				}
+				parents = strings.Join(ps, ";")
+			}
+			line := fmt.Sprintf("C16 changed %s %s", parents, tree("HEAD"))
+			if ans, err := c.Or.Ask([]string{line}); err == nil {
+				listed := map[int]bool{}
+				if ans[0] != "-" {
+					for _, t := range strings.Split(ans[0], ",") {
+						var n int
+						fmt.Sscan(t, &n)
+						listed[n] = true
+					}
+				}
+				// observable: a lockable file (no lock is held) is read-only afterwards exactly when it is listed;
+				// every file the scenario touches was writable before the commit
+				for _, f := range names {
+					fi, err := os.Stat(filepath.Join(w.dir, f))
+					if err != nil {
+						continue
+					}
+					ro := fi.Mode().Perm()&0o200 == 0
+					if ro != listed[pathID[f]] {
+						c.R.Add(Finding{Kind: "diff", What: "which files the commit hook re-examines: model and implementation disagree", Case: enc,
+							Impl: fmt.Sprintf("%s read-only=%v", f, ro), Model: fmt.Sprintf("listed=%v <= %s", listed[pathID[f]], clip(line, 300)), Broken: "corr.C16.commit-hook"})
+					}
+				}
+				c.R.Count("commit-hook.model-compared")
+			}
+		}
 		if fi, err := os.Stat(filepath.Join(w.dir, "plain.md")); err == nil && fi.Mode().Perm()&0o200 == 0 {
 			c.R.Add(Finding{Kind: "oracle", What: "a file that is not lockable was made read-only", Case: enc, Impl: "plain.md"})
 		}
